@@ -253,8 +253,18 @@ fn gen_plan(rng: &mut Prng, forced: Option<(u64, u64)>) -> (ClockSpec, u64) {
             for i in k.min(300)..300 {
                 measured[i] = base + 13 + rng.below(1000) * 2 + (i as u64 % 2) * 977;
             }
-            // a few backward probes inside the stuck stretch (interaction of two counters)
-            if rng.chance(1, 2) {
+            if rng.chance(1, 5) {
+                // EVERY measured probe is stuck or backward: a constant-rate counter whose first one to three
+                // measured probes step back (a 32-bit tick counter that wraps right there looks like that)
+                let c = base;
+                for m in measured.iter_mut() {
+                    *m = c;
+                }
+                let nb = rng.range(1, 3) as usize;
+                for i in 0..nb {
+                    measured[i] = if rng.chance(1, 2) { c.wrapping_sub(1 << 32) } else { 0u64.wrapping_sub(rng.range(1_000, 20_000)) };
+                }
+            } else if rng.chance(1, 2) {
                 for _ in 0..rng.range(1, 3) {
                     let i = rng.below(k.min(300) as u64) as usize;
                     measured[i] = 0u64.wrapping_sub(measured[i]);
